@@ -91,7 +91,7 @@ def main():
                 stats['findings'] += 1
                 out.write(json.dumps({'bucket': f.bucket, 'msg': f.msg, 'sub': sub, 'case': core.to_jsonable(case)}) + '\n')
                 out.flush()
-        if stats['execs'] % 2000 == 0:
+        if stats['execs'] % 100 == 0:
             with open(out_path + '.stats', 'w') as g:
                 json.dump(stats, g)
 
